@@ -194,9 +194,18 @@ func (vt *Model) cud(ps int) {
 	if ps == 0 {
 		ps = 1
 	}
+	start := vt.cursor.row
 	vt.cursor.row += row(ps)
 	if vt.cursor.row > vt.margin.bottom {
 		vt.cursor.row = vt.margin.bottom
+	}
+	if start > vt.margin.bottom {
+		// The cursor started below the scroll region: it is not pulled
+		// back into it, the last line is the limit
+		vt.cursor.row = start + row(ps)
+		if vt.cursor.row > row(vt.height()-1) {
+			vt.cursor.row = row(vt.height() - 1)
+		}
 	}
 }
 
